@@ -1854,8 +1854,8 @@ def _engine_cut(self, cut, idx, env):
     # 1. established
     for nm, ex in cut.get('assume', {}).items():
         v = self.eval_spec(ex, env, genv)
-        self.oblige('%s::cut%d.%s.established' % (key, idx, nm), self.as_z3_bool(v), kind='invariant',
-                    detail='%s [at cut %d]' % (ex, idx))
+        self.oblige('%s::cut_%s.%s.established' % (key, cut.get('name', idx), nm), self.as_z3_bool(v), kind='invariant',
+                    detail='%s [at cut %s]' % (ex, cut.get('name', idx)))
     # 2. abstraction
     from .contracts import abstract_value
     for var, spec in cut.get('abstract', {}).items():
